@@ -128,3 +128,15 @@ CASES += [
     {"name": "molecule of a one-exciton state found by a loop over the signature", "kind": "twin", "edits": [
         (_AB3, "                        kk = list(state1.elsignature).index(1)\n", "                        kk = 0\n                        for i_ in range(len(state1.elsignature)):\n                            if state1.elsignature[i_] == 1:\n                                kk = i_\n", 1)]},
 ]
+
+_AB9 = "quantarhei/builders/aggregate_base.py"
+CASES += [
+    {"name": "the parameters of the coupling method are popped from the caller's dictionary (seeded change of round 9)", "kind": "mutant",
+     "rule": "C03-M", "edits": [(_AB9, '            epsr = params["epsr"]\n', '            epsr = params.pop("epsr", 1.0)\n', 1)]},
+    {"name": "the parameter is deleted from the dictionary after it was read", "kind": "mutant",
+     "rule": "C03-M", "edits": [(_AB9, '            epsr = params["epsr"]\n', '            epsr = params["epsr"]\n            del params["epsr"]\n', 1)]},
+    {"name": "the parameter is read with get and a default", "kind": "twin",
+     "edits": [(_AB9, '            epsr = params["epsr"]\n', '            epsr = params.get("epsr", 1.0)\n', 1)]},
+    {"name": "the parameters are popped from a copy of the dictionary", "kind": "twin",
+     "edits": [(_AB9, '            epsr = params["epsr"]\n', '            params = dict(params)\n            epsr = params.pop("epsr", 1.0)\n', 1)]},
+]
